@@ -87,7 +87,40 @@ def run(cmd, argv, cwd=None):
         if cwd:
             os.chdir(old)
     exc = res.exception
-    return Res(cmd, argv, res.exit_code, res.stdout, res.stderr, exc, time.monotonic() - t0)
+    out = Res(cmd, argv, res.exit_code, res.stdout, res.stderr, exc, time.monotonic() - t0)
+    _divergence_audit(out, cwd)
+    return out
+
+
+class HarnessDivergence(RuntimeError):
+    """in-process and sub-process execution of the same read-only command disagree: a harness problem, never a verdict"""
+
+
+AUDIT = {"rate": float(os.environ.get("VF_AUDIT_RATE", "0.004")), "n": 0, "done": 0, "rng": None}
+_READONLY = {"verify", "diff", "info", "hash"}
+
+
+def _divergence_audit(r, cwd):
+    """DESIGN 2.2: a sample of the read-only in-process commands is repeated through a real sub-process
+    (`python -m vf.cli_entry bare:<cmd>`, no shims except TZ) and exit code + stdout are compared."""
+    if r.cmd not in _READONLY or AUDIT["rate"] <= 0:
+        return
+    import random
+
+    if AUDIT["rng"] is None:
+        AUDIT["rng"] = random.Random(os.getpid())
+    AUDIT["n"] += 1
+    if AUDIT["rng"].random() >= AUDIT["rate"]:
+        return
+    from . import clock, listing
+
+    if clock._state["now"] is not None and r.cmd == "verify" and "-co" in r.argv:
+        return
+    sub = run_sub("bare:" + r.cmd, r.argv, cwd=cwd, timeout=120)
+    AUDIT["done"] += 1
+    exit_in = 1 if r.internal else r.exit
+    if sub.exit != exit_in or (r.out or "") != (sub.out or ""):
+        raise HarnessDivergence(f"{r.cmd} {r.argv}: in-process exit={exit_in} sub-process exit={sub.exit}; stdout equal={(r.out or '') == (sub.out or '')}")
 
 
 def run_sub(tool, argv, cwd=None, extra_env=None, timeout=120, shim_env=None):
@@ -96,6 +129,8 @@ def run_sub(tool, argv, cwd=None, extra_env=None, timeout=120, shim_env=None):
     e["PYTHONPATH"] = env.REPO + os.pathsep + env.VERIF
     e["VF_REPO"] = env.REPO
     e["PYTHONDONTWRITEBYTECODE"] = "1"
+    e["PYTHONUTF8"] = "1"
+    e["PYTHONIOENCODING"] = "utf-8"
     if extra_env:
         e.update(extra_env)
     if shim_env:
